@@ -88,6 +88,7 @@ class Check:
         self.n_nontrivial = 0
         self.nontrivial_hashes = set()
         self.extra = {}
+        self.gen_tier = tier
         self.bin_h = os.path.join(self.work, "harness")
         self.bin_d = os.path.join(LEAN, ".lake", "build", "bin", "drv_" + self.P.DRIVER)
 
@@ -356,10 +357,47 @@ class Check:
                         yield s
         ex = getattr(self.P, "exhaustive", None)
         if ex:
-            for k, lines in enumerate(ex(self.tier) or []):
+            for k, lines in enumerate(ex(self.gen_tier) or []):
                 yield Scenario(lines, "exhaustive:%d" % k)
-        for k, lines in enumerate(self.P.gen(rng, self.tier)):
+        for k, lines in enumerate(self.P.gen(rng, self.gen_tier)):
             yield Scenario(lines, "gen:%d:%d" % (self.seed, k))
+
+    def changed_sources(self):
+        """non-test .go files of the tree under test that differ from the tree the models were last validated against
+        (bin/validated.json, written by bin/mkvalidated).  A quick check whose property is anchored in a changed package
+        explores as widely as the thorough tier does: the models were validated against different code."""
+        base = os.path.join(VERIF, "bin", "validated.json")
+        if not os.path.exists(base):
+            return []
+        want = json.load(open(base))["files"]
+        changed = []
+        seen = set()
+        for root, dirs, files in os.walk(REPO):
+            dirs[:] = [d for d in dirs if not d.startswith(".")]
+            for fn in files:
+                if fn.endswith(".go") and not fn.endswith("_test.go"):
+                    rel = os.path.relpath(os.path.join(root, fn), REPO)
+                    seen.add(rel)
+                    try:
+                        h = hashlib.sha256(open(os.path.join(root, fn), "rb").read()).hexdigest()
+                    except OSError:
+                        h = None
+                    if want.get(rel) != h:
+                        changed.append(rel)
+        changed += [f for f in want if f not in seen]
+        return sorted(changed)
+
+    def escalation(self):
+        changed = self.changed_sources()
+        if not changed:
+            return []
+        anchors = set(getattr(self.P, "ANCHORS", []))
+        for l in open(os.path.join(VERIF, "properties.jsonl")):
+            pr = json.loads(l)
+            if pr["id"] == self.id:
+                anchors |= set(pr["anchors"]["files"])
+        dirs = {os.path.dirname(a) for a in anchors} | {"utils", "memmetrics", "internal/holsterv4/collections", "internal/holsterv4/clock"}
+        return [c for c in changed if os.path.dirname(c) in dirs]
 
     def judge(self, scens, search_only=False):
         diverged = []
@@ -377,6 +415,11 @@ class Check:
 
     def main(self):
         P = self.P
+        self.gen_tier = self.tier
+        touched = self.escalation()
+        if touched and self.tier == "quick" and not os.environ.get("VERIF_NO_ESCALATE"):
+            self.gen_tier = "thorough"
+            self.extra["escalated"] = "sources differ from the validated tree in the property's packages (%s): scenarios generated as in the thorough tier" % ", ".join(touched[:8])
         race = self.tier == "thorough" and getattr(P, "RACE", False)
         ok = self.build_harness(race=race)
         ok = self.build_lean() and ok
